@@ -30,3 +30,32 @@ def calls(ev, name=None):
 
 def assigns(ev, name=None):
     return [e for e in ev.events if e["kind"] == "assign" and (name is None or e["name"] == name)]
+
+
+def inline_hook(prog, names, depth=2):
+    """Call hook that inlines the named module-level functions (single-return, straight-line) into the caller's value."""
+    def hook(ev, node, rname, args, kwargs, path):
+        if rname in names and depth > 0:
+            f = prog.func(rname, required=False)
+            if f is None:
+                return None
+            m = prog.module(".".join(rname.split(".")[:2]))
+            params = [a.arg for a in f.args.args]
+            env = {}
+            for p_, a in zip(params, args):
+                env[p_] = a
+            for k, v in kwargs.items():
+                env[k] = v
+            defaults = dict(zip(params[len(params) - len(f.args.defaults):], f.args.defaults))
+            sub = symeval.Evaluator(m, call_hook=inline_hook(prog, names, depth - 1))
+            for p_, d in defaults.items():
+                if p_ not in env:
+                    env[p_] = sub.ev(d, symeval.Path({}, []))
+            try:
+                outs = [o for o in sub.run(f, env=env, skip_self=False) if o.kind == "return"]
+            except symeval.Undecided:
+                return None
+            if len(outs) == 1:
+                return outs[0].value
+        return None
+    return hook
